@@ -100,6 +100,12 @@ fn mix_set(k: usize, pos: usize) -> (V9Set, usize) {
 }
 
 pub fn streams(tier: &str) -> Vec<StreamGen> {
+    streams_with(tier, 4)
+}
+
+/// `quick_lists`: length bound of the multi-field template lists in the quick tier (the properties whose oracle is
+/// costly per evaluation - serialisation, the second build - take 3)
+pub fn streams_with(tier: &str, quick_lists: usize) -> Vec<StreamGen> {
     let thorough = tier == "thorough";
     let mut v: Vec<StreamGen> = vec![];
 
@@ -124,7 +130,7 @@ pub fn streams(tier: &str) -> Vec<StreamGen> {
     // 2. multi-field templates over the class representatives
     {
         let reps = v9_reps();
-        let maxlen = if thorough { 5 } else { 2 };
+        let maxlen = if thorough { 5 } else { quick_lists };
         let nl = list_count(reps.len(), maxlen);
         let r2 = reps.clone();
         let mk = move |i: u64| -> Option<Vec<Vec<u8>>> {
@@ -314,8 +320,8 @@ pub fn run(tier: &str) -> i32 {
         prop: "C04".into(),
         tier: tier.into(),
         level: "model_checking",
-        rule: "every index of each space is a conformant V9 stream (1..3 calls on one fresh parser) built from finite menus: every field type 1..=520(+extras) x every supported width x value menu x delivery x padding; all lists of class representatives of length <= 2 (thorough 5) x records x padding x delivery; all scope/option lists; all flowset sequences of length <= 3 (thorough 6) over an 11-set menu x prior context x count convention. Each call's result is compared with the RFC 3954 reference decode; an outcome is distinct by the hash of the canonical results of all calls".into(),
-        bounds: json!({"history_depth": 3, "multi_field_list_len": if tier=="thorough" {5} else {2}, "flowset_sequence_len": if tier=="thorough" {6} else {3}, "records_per_flowset": "1..=3", "padding": "0..=3"}),
+        rule: "every index of each space is a conformant V9 stream (1..3 calls on one fresh parser) built from finite menus: every field type 1..=520(+extras) x every supported width x value menu x delivery x padding; all lists of class representatives of length <= 4 (thorough 5) x records x padding x delivery; all scope/option lists; all flowset sequences of length <= 3 (thorough 6) over an 11-set menu x prior context x count convention. Each call's result is compared with the RFC 3954 reference decode; an outcome is distinct by the hash of the canonical results of all calls".into(),
+        bounds: json!({"history_depth": 3, "multi_field_list_len": if tier=="thorough" {5} else {4}, "flowset_sequence_len": if tier=="thorough" {6} else {3}, "records_per_flowset": "1..=3", "padding": "0..=3"}),
         assumptions: vec!["field number -> (name, value class) is the library's own table (pinned by its lookup snapshot tests)".into(), "count field read as an upper bound on flowsets (C11's reading); a packet extends to the end of the buffer otherwise".into()],
         trusted_base: vec!["refmodel::ref_v9 (RFC 3954 reference decoder) and refmodel::decode".into()],
         required_tags: vec![],
